@@ -170,7 +170,7 @@ class Adapter:
             try:
                 start, stop, ratio = dec.add(sb, name=name, addr=addr, sparse=not dense)
             except ValueError:
-                if not pre or True:
+                if not pre:          # (a pending align_to would not be replayed for a refused add)
                     rejected.append({"dense": int(dense), "aw": saw, "dw": sdw, "gran": sgran, "feat": sf,
                                      "addr": addr, "name": name, "after": len(subs)})
                 continue
